@@ -15,4 +15,5 @@ INVARIANT Inv_ReportedMass
 INVARIANT Inv_CondCoherent
 INVARIANT Inv_Pointwise
 
+INVARIANT Inv_IntLogCond
 INVARIANT Inv_Export
